@@ -104,9 +104,13 @@ func (o *histogramOperator) Next(ctx context.Context) ([]model.StepVector, error
 
 	o.scalarPoints = o.scalarPoints[:0]
 	for _, scalar := range scalars {
+		// Keep one entry per step so that the quantile of a step is not
+		// applied to an earlier step when the scalar is absent somewhere.
+		point := math.NaN()
 		if len(scalar.Samples) > 0 {
-			o.scalarPoints = append(o.scalarPoints, scalar.Samples[0])
+			point = scalar.Samples[0]
 		}
+		o.scalarPoints = append(o.scalarPoints, point)
 		o.scalarOp.GetPool().PutStepVector(scalar)
 	}
 	o.scalarOp.GetPool().PutVectors(scalars)
